@@ -678,6 +678,17 @@ class PrefixSeq(SymSeq):
         return self.grid.prefix(interp, k)
 
 
+class OffsetPrefixSeq(PrefixSeq):
+    """tuple(accumulate(grid, add, initial=offset)): element k is offset + the sum of the first k block sizes."""
+
+    def __init__(self, grid, offset):
+        PrefixSeq.__init__(self, grid)
+        self.offset = offset
+
+    def get(self, interp, k):
+        return self.offset + self.grid.prefix(interp, k)
+
+
 class SymHashSet:
     """A python set whose elements may be symbolic: membership/dedup decided by forking on equality."""
 
